@@ -155,7 +155,9 @@ def to_case(f):
 
 
 def show(f):
-    if f[0] == "site":
+    if f[0] == "dep":
+        return [f[0]] + [x if x in ("ok", "err", "panic") else unhx(x).decode("latin-1") for x in f[1:5]] + f[5:]
+    if f[0] in ("site", "find"):
         return [f[0]] + [x if x in ("ok", "err", "panic") else unhx(x).decode("latin-1") for x in f[1:]]
     return [f[0]] + [unhx(x).decode("latin-1") if x not in ("ok", "err", "panic") and not x.isdigit() or x == "-" else x
                      for x in f[1:]]
